@@ -42,6 +42,13 @@ func c12(c *Ctx) {
 		prepFile(f)
 		p, src := f.Print()
 		rc := &RenderCase{File: f, Printer: p, Src: src, Envs: failEnvs(c, c.N(8, 12))}
+		// one environment makes the documents large (pooled buffers of very different sizes), with and without a failing site
+		for _, fail := range [][]string{nil, {"fe1", "fe2"}} {
+			big := c.genEnv(98)
+			big.S0 = strings.Repeat("0123456789abcdef", 6000)
+			big.Fail = fail
+			rc.Envs = append(rc.Envs, big)
+		}
 		for _, t := range f.Templates {
 			rc.Names = append(rc.Names, t.Name)
 		}
